@@ -111,6 +111,10 @@ def step (reg : Registry) (toks : List String) : Option (Registry × String) :=
     let d ← reg.get? zid
     let l ← parseInt? l
     some (reg, showR toString (atStartOfDay d.get l))
+  | ["zone.startofday", zid, l, _cal] => do
+    let d ← reg.get? zid
+    let l ← parseInt? l
+    some (reg, showR toString (atStartOfDay d.get l))
   | ["zone.walk", zid, fr, to, maxn] => do
     let d ← reg.get? zid
     let fr ← parseInt? fr; let to ← parseInt? to; let maxn ← maxn.toNat?
